@@ -39,6 +39,11 @@ def run(ctx):
     for k in range(1 if q else 3):           # scale: 256+ modules and patterns, 100+ links on one module, a 16+ track pattern
         add("large%d" % k, gen.large_project(rnd, spec))
     for t in sorted(cl):
+        if fmt.projection.payload(cl[t](), spec)["k"] in ("arrays", "multictl", "wave", "fmx"):
+            # a FRESH module whose array payloads (documented defaults so far) are edited element by element
+            fm = cl[t]()
+            fmt.edit_in_place(api.Synth(fm), spec, rnd, 8)
+            add("%s#fresh-edited" % t, api.Synth(fm))
         for k in range(2 if q else 30):
             add("%s#%d" % (t, k), api.Synth(gen.rand_module(rnd, cl[t], spec, depth=1, in_project=False)))
     for i in range(20 if q else 300):
